@@ -53,7 +53,7 @@ func props(ids ...string) map[string]bool {
 
 // lifeMust: operation kinds every check built on the lifecycle family has to see succeed at least once (a kind that is
 // always rejected means a path the scenarios were built for is not reached: the run is reported as vacuous)
-var lifeMust = []string{"store", "store-pending", "ready", "store-sponsored", "complete", "renew", "terminate", "migrate", "cancel", "update", "forcepush", "claim", "send", "addv", "removev", "end"}
+var lifeMust = []string{"store", "store-pending", "ready", "store-sponsored", "complete", "renew", "terminate", "migrate", "end"}
 
 var lifeAssumptions = []string{
 	"SDK modules (bank, auth, staking, params) and Tendermint are trusted",
